@@ -173,3 +173,39 @@ Definition detached_wiring : wiring :=
 Example detached_is_not_under_caller :
   under_caller (sub_rows detached_wiring false [NewTop; NewChild 0]) 2 (JInner 1) = false.
 Proof. reflexivity. Qed.
+
+(* ---------------------------------------------------------------------- *)
+(** * Context forwarding                                                    *)
+
+(** the forwarded context already contains every key of the config-level context *)
+Lemma job_context_keeps_defined :
+  forall overrides base k, base k <> None -> job_context base overrides k <> None.
+Proof.
+  induction overrides as [|o r IH]; simpl; intros base k H; auto.
+  apply IH. unfold later_wins. destruct (ctx_get o k); [discriminate|exact H].
+Qed.
+
+(** with the shipped order the sub-workflow starts from exactly the calling job's context, in both
+    modes: for every config-level context, run() context, chain of update_context overrides, key *)
+Theorem forwarded_context_is_callers :
+  forall (config run : ctx) (overrides : list ctx) (k : nat),
+    let fwd := job_context (run_context shipped_ctx_order (ctx_get config) (ctx_get run)) overrides in
+    sub_new_context shipped_ctx_order (ctx_get config) fwd k = fwd k /\
+    sub_extend_context fwd k = fwd k.
+Proof.
+  intros config run overrides k fwd. split.
+  - unfold sub_new_context, run_context, shipped_ctx_order, later_wins at 1.
+    destruct (fwd k) eqn:E; [reflexivity|].
+    destruct (ctx_get config k) eqn:C; [|reflexivity].
+    exfalso. eapply (job_context_keeps_defined overrides); [|exact E].
+    unfold run_context, shipped_ctx_order, later_wins. destruct (ctx_get run k); [discriminate|]. rewrite C. discriminate.
+  - unfold sub_extend_context, later_wins. destruct (fwd k); reflexivity.
+Qed.
+
+(** with the operands the other way round a caller's override of a config-defined key is lost in a
+    new execution (and only there) *)
+Example other_order_loses_override :
+  let config := [(0, 7%Z)] in
+  let fwd := job_context (run_context RunThenConfig (ctx_get config) (ctx_get [])) [[(0, 2%Z)]] in
+  fwd 0 = Some 2%Z /\ sub_new_context RunThenConfig (ctx_get config) fwd 0 = Some 7%Z /\ sub_extend_context fwd 0 = Some 2%Z.
+Proof. repeat split. Qed.
